@@ -640,6 +640,7 @@ type GhostDecl struct {
 }
 
 type SpecFn struct {
+	Reads  []string // heaps an uninterpreted spec function depends on: "E:<elemtype>" or "H:<Type>.<field>"
 	Name   string
 	Params []QVar
 	Ret    string
@@ -955,6 +956,12 @@ func (ss *SpecSet) parseFile(path, pkg string) error {
 				sf.Params = append(sf.Params, QVar{f[0], f[1]})
 			}
 			tail := strings.TrimSpace(rest[close+1:])
+			if k := strings.Index(tail, " reads "); k >= 0 {
+				for _, it := range strings.Split(tail[k+7:], ",") {
+					sf.Reads = append(sf.Reads, strings.TrimSpace(it))
+				}
+				tail = strings.TrimSpace(tail[:k])
+			}
 			if k := strings.Index(tail, "="); k >= 0 {
 				sf.Ret = strings.TrimSpace(tail[:k])
 				e, err := parseExpr(tail[k+1:])
